@@ -114,7 +114,8 @@ func C12Err(err error) string {
 	}
 	msg := err.Error()
 	if strings.Contains(msg, "connection refused") || strings.Contains(msg, "EOF") || strings.Contains(msg, "closed") ||
-		strings.Contains(msg, "i/o timeout") || strings.Contains(msg, "broken pipe") || strings.Contains(msg, "reset by peer") {
+		strings.Contains(msg, "i/o timeout") || strings.Contains(msg, "too many open files") ||
+		strings.Contains(msg, "cannot assign requested address") || strings.Contains(msg, "dial tcp") || strings.Contains(msg, "broken pipe") || strings.Contains(msg, "reset by peer") {
 		return "Other:conn"
 	}
 	if len(msg) > 80 {
